@@ -46,7 +46,12 @@ def build(run):
     run.under_contract("term", "Term.tsukamoto", base)
     body = [s for s in base.body if not (isinstance(s, ast.Expr) and isinstance(s.value, ast.Constant))]
     refuses = len(body) == 1 and isinstance(body[0], ast.Raise) and isinstance(body[0].exc, ast.Call) and getattr(body[0].exc.func, "id", "") == "RuntimeError"
-    run.add(static("term.Term.tsukamoto/raises.always", refuses, "Term.tsukamoto is a single unconditional `raise RuntimeError(...)`: non-monotonic terms refuse", fn="term.Term.tsukamoto"))
+    if refuses:
+        run.add(static("term.Term.tsukamoto/raises.always", True, "Term.tsukamoto is a single unconditional `raise RuntimeError(...)`: non-monotonic terms refuse", fn="term.Term.tsukamoto"))
+    else:
+        # written in another way (e.g. the exception built by a helper): what it raises is not read off the statement - undecided; the refusal is then searched natively
+        run.add(undecided("term.Term.tsukamoto/raises.always", "Term.tsukamoto is not a single `raise RuntimeError(...)` statement: " + "; ".join(ast.unparse(b)[:80] for b in body), fn="term.Term.tsukamoto",
+                          meta={"replay": {"module": "contracts.terms", "func": "replay_refuses", "kwargs": {"cls": "Triangle", "monotonic": False}, "vars": {}}}))
     for cls in C.MONOTONIC:
         tc = C.TERMS[cls]
         fq = f"term.{cls}.tsukamoto"
